@@ -175,11 +175,46 @@ def builtinLit (n : String) (v : J) : Option Lit :=
      | _ => none)
   else none
 
-/-- `ast_node_from_value` at a custom (pass-through) scalar -/
+/-- a digit string without a trailing `0`, or the single digit `0` (fractions in Python's `repr(float)`) -/
+def fracCanon (ds : List Char) : Bool :=
+  !ds.isEmpty && ds.all Char.isDigit && (ds == ['0'] || ds.getLast? != some '0')
+
+/-- number of significant digits of `int.frac` -/
+def sigDigits (int frac : List Char) : Nat :=
+  if int == ['0'] then (frac.dropWhile (· == '0')).length else int.length + (if frac == ['0'] then 0 else frac.length)
+
+/-- `str(float(x)) == x` and `x` finite — Python's shortest `repr` of a double, modelled syntactically for numerals of
+    at most 15 significant digits (every such decimal is the shortest repr of the double it denotes; longer numerals are
+    outside the model: trusted base "Python float/repr are modelled, not verified"):
+    `[-]int.frac` with `int` without leading zeros and below 10^16, at most three leading zeros in `frac` when `int` is
+    `0`, no trailing zeros in `frac`; or `[-]d[.frac]e±XX` with exponent ≥ 16 or ≤ -5 written with at least two digits. -/
+def isFloatRepr (x : String) : Bool :=
+  let cs := match x.toList with | '-' :: r => r | l => l
+  let intOK (i : List Char) : Bool := i == ['0'] || (match i with | c :: r => c != '0' && c.isDigit && r.all Char.isDigit | [] => false)
+  match cs.span (· != 'e') with
+  | (mant, []) =>
+    (match mant.span (· != '.') with
+     | (i, '.' :: f) =>
+       intOK i && fracCanon f && i.length ≤ 16 && sigDigits i f ≤ 15 &&
+       (i != ['0'] || f == ['0'] || (f.takeWhile (· == '0')).length ≤ 3)
+     | _ => false)
+  | (mant, 'e' :: sgn :: ex) =>
+    let mantOK := (match mant.span (· != '.') with
+      | ([d], []) => d != '0' && d.isDigit
+      | ([d], '.' :: f) => d != '0' && d.isDigit && fracCanon f && f != ['0'] && 1 + f.length ≤ 15
+      | _ => false)
+    let exOK := ex.length ≥ 2 && ex.all Char.isDigit && (ex.length == 2 || ex.head? != some '0')
+    let e := ex.foldl (fun acc c => acc * 10 + (c.toNat - 48)) 0
+    mantOK && exOK && ((sgn == '+' && e ≥ 16) || (sgn == '-' && e ≥ 5))
+  | _ => false
+
+/-- `ast_node_from_value` at a custom (pass-through) scalar. A STRING is written as a number only when the number
+    denotes the very same text (fix H3: `_INT_RE` match, or `str(float(x)) == x`), otherwise as a string literal; in
+    all three cases the literal reads back, through `default_scalar`, as the text itself. -/
 def customLit (v : J) : Option Lit :=
   match v with
   | .bool b => some (.bool b)
-  | .str x => some (if isIntText x then .int x (x ++ ".0") else .str x)
+  | .str x => some (if isIntText x then .int x (x ++ ".0") else if isFloatRepr x then .float x x else .str x)
   | .num k => some (.float (toString k) (intRepr k))             -- FloatValue(str(int))
   | .obj [("$float", .str r)] => some (.float r r)                 -- FloatValue(str(float))
   | _ => none
